@@ -219,7 +219,9 @@ pub fn load(bytes: &[u8]) -> Result<IModule<'_>, String> {
         for (pc, op) in f.code.iter().enumerate() {
             match op {
                 O::Block { .. } | O::Loop { .. } | O::If { .. } => stack.push((pc, None)),
-                O::TryTable { .. } | O::Try { .. } => return Err("try_table not supported by the interpreter".into()),
+                // a try_table without catch clauses behaves like a block (an exception thrown inside propagates)
+                O::TryTable { try_table } if try_table.catches.is_empty() => stack.push((pc, None)),
+                O::TryTable { .. } | O::Try { .. } => return Err("try_table with catch clauses is not supported by the interpreter".into()),
                 O::Else => {
                     if let Some(t) = stack.last_mut() {
                         t.1 = Some(pc);
@@ -230,6 +232,7 @@ pub fn load(bytes: &[u8]) -> Result<IModule<'_>, String> {
                     if let Some((open, els)) = stack.pop() {
                         let bt = match &f.code[open] {
                             O::Block { blockty } | O::Loop { blockty } | O::If { blockty } => *blockty,
+                            O::TryTable { try_table } => try_table.ty,
                             _ => BlockType::Empty,
                         };
                         let (np, nr) = match bt {
@@ -419,7 +422,7 @@ impl<'m, 'a> Machine<'m, 'a> {
                     self.ev(Ev::FuncExit { f, cause: ExitCause::Unreachable });
                     return Err(Stop::Trap("unreachable".into()));
                 }
-                O::Block { .. } => {
+                O::Block { .. } | O::TryTable { .. } => {
                     structured = true;
                     let c = &func.ctl[&pc];
                     labels.push(Label { open: Some(pc), is_loop: false, cont: c.end + 1, arity: c.nresults, height: stack.len() - c.nparams });
